@@ -9,6 +9,8 @@ import Gama.Props.C20.ProjectEquationsReachable
 import Gama.Lemmas.PeWitnessReal
 import Gama.Lemmas.PeWitnessSub
 import Gama.Lemmas.PeWitnessSub3
+import Gama.Lemmas.PeWitnessSub2
+import Gama.Lemmas.PeWitnessSub4
 namespace Gama.Props.C20
 open Gama Gama.Ls Gama.Ls.Net Gama.LS Gama.NetDecision Gama.PE Gama.C06NZ Gama.C06NZ.Ex Matrix
 
@@ -38,13 +40,13 @@ theorem C20_subconfigurations_of_netWobs :
     obtain ⟨zA, zB, zC, rfl, hA, hB, hC⟩ := subOf_dcfg n h
     exact ⟨zA, zB, zC, rfl, hA, hB, hC, withStatuses_cfg zA zB zC⟩⟩
 
-/-- **`NetHyp .gso` on 6 of the 8 sub-configurations of `netWobs`**, each on the EVALUATED output of `project_equations()`:
-    the given configuration, `(fixed, unused, free)` (one row `A→C`), and the four on which no observation survives the
-    revision (empty system).  NOT covered: `(fixed, constrained, unused)` (one row `A→B`, active pattern `[t,f,f]`) and
-    `(unused, constrained, free)` (one row `B→C`, `activeCov() = [40]`) -/
+/-- **`NetHyp .gso` on ALL 8 sub-configurations of `netWobs`**, each on the EVALUATED output of `project_equations()`:
+    the given configuration (3 rows, correlated), `(fixed, constrained, unused)` (one row `A→B`, active pattern `[t,f,f]` of the
+    correlated cluster), `(fixed, unused, free)` (one row `A→C`), `(unused, constrained, free)` (one row `B→C`, pattern `[f,f,t]`,
+    `activeCov() = [40]`, `√10` symbolic, defect 1 resolved by `min_x_ = [1]`), and the four on which no observation survives the
+    revision (empty system) -/
 theorem C20_nethyp_subconfigurations_pe_witness (zA zB zC : CStat)
     (hA : zA = .fixed ∨ zA = .unused) (hB : zB = .constrained ∨ zB = .unused) (hC : zC = .free ∨ zC = .unused)
-    (hnot : ¬ (zA = .fixed ∧ zB = .constrained ∧ zC = .unused) ∧ ¬ (zA = .unused ∧ zB = .constrained ∧ zC = .free))
     (np : NetProblem ℝ) (hp : (peWorld netWobs (dcfg zA zB zC)).prob = some np) : NetHyp .gso np := by
   by_cases he : (zA = .unused ∧ zB = .unused) ∨ (zA = .unused ∧ zC = .unused) ∨ (zB = .unused ∧ zC = .unused)
   · exact empty_cfg_netHyp zA zB zC he hA hB hC np hp
@@ -52,13 +54,43 @@ theorem C20_nethyp_subconfigurations_pe_witness (zA zB zC : CStat)
     · have h : projectEquations (withStatuses netWobs (dcfg .fixed .constrained .free)) = .ok (npO, uO) := peO
       rw [peWorld_prob_eq netWobs _ _ _ h np hp]
       exact C20_nethyp_given_configuration_pe_witness.2
-    · exact absurd ⟨rfl, rfl, rfl⟩ hnot.1
+    · exact cfg2_netHyp np hp
     · exact cfg3_netHyp np hp
     · exact absurd (Or.inr (Or.inr ⟨rfl, rfl⟩)) he
-    · exact absurd ⟨rfl, rfl, rfl⟩ hnot.2
+    · exact cfg4_netHyp np hp
     · exact absurd (Or.inr (Or.inl ⟨rfl, rfl⟩)) he
     · exact absurd (Or.inl ⟨rfl, rfl⟩) he
     · exact absurd (Or.inl ⟨rfl, rfl⟩) he
+
+/-- the per-configuration hypothesis of `C20_adjusted_sound_of_project_equations_subconfigurations` on `netWobs`: `NetHyp .gso` on
+    EVERY configuration the removal loops can reach from the given one — the first ℝ witness of the (shrunk) `WorldHyp` -/
+theorem C20_worldhyp_reachable_pe_witness (dnet : NetDecision.Net) (h : SubOf (dcfg .fixed .constrained .free) dnet)
+    (np : NetProblem ℝ) (hp : (peWorld netWobs dnet).prob = some np) : NetHyp .gso np := by
+  obtain ⟨zA, zB, zC, rfl, hA, hB, hC⟩ := subOf_dcfg dnet h
+  exact C20_nethyp_subconfigurations_pe_witness zA zB zC hA hB hC np hp
+
+/-- **`C20_adjusted_sound_of_project_equations_subconfigurations` applied to `netWobs`** (gso): `DirFromStation` (no stand-point
+    cluster) and the per-configuration hypothesis on all 8 reachable configurations are DISCHARGED; what is left is the theorem's
+    own antecedent, the verdict of the removal loops on the executed world (not evaluated: it needs the cofactors `q_xx(i,i)` of
+    `netSolve .gso npO` as numbers for the huge-covariance test) -/
+theorem C20_adjusted_sound_pe_witness (m0 : ℝ) (d : Nat)
+    (h : (NetDecision.decide m0 (worldOf (peWorld netWobs) (obsNet .gso)) (dcfg .fixed .constrained .free)).2 = .adjusted d) :
+    ∃ n0,
+      (∀ np0, (peOn realTrig (SubOf (dcfg .fixed .constrained .free)) netWobs n0).prob = some np0 →
+        (∃ a, netSolve .gso np0 = .ok a ∧ a.defect = d) ∧
+        Resolves (toProblem np0).A (toProblem np0).S ∧ d + (toProblem np0).A.rank = np0.n) ∧
+      ((peOn realTrig (SubOf (dcfg .fixed .constrained .free)) netWobs n0).prob = none → d = 0) ∧
+      d ≤ minN (peOn realTrig (SubOf (dcfg .fixed .constrained .free)) netWobs n0).unknowns
+        (peOn realTrig (SubOf (dcfg .fixed .constrained .free)) netWobs n0).net := by
+  have hds : DirFromStation netWobs := by
+    intro c hc st o hst
+    have : c.stand = none := by
+      simp only [netWobs, netWg, List.mem_cons, List.not_mem_nil, or_false] at hc
+      rcases hc with rfl | rfl | rfl <;> rfl
+    rw [this] at hst; cases hst
+  obtain ⟨n0, h1, h2, -, h4⟩ := C20_adjusted_sound_of_project_equations_subconfigurations realTrig netWobs .gso m0 (by decide) hds
+    (dcfg .fixed .constrained .free) C20_worldhyp_reachable_pe_witness d h
+  exact ⟨n0, h1, h2, h4⟩
 
 end witness
 
